@@ -82,7 +82,8 @@ func (p *Pool) Doc(i int) Doc {
 
 var fileOps = []string{"file.text", "file.markdown", "file.document", "file.jsonl", "file.csv", "file.json", "file.pagecount"}
 var pdfOps = []string{"file.text", "file.markdown", "file.document", "file.jsonl", "file.csv", "file.fragments", "file.analyze",
-	"file.text.bycolumn", "file.text.nohf", "file.lines", "file.paragraphs", "file.pagecount"}
+	"file.text.bycolumn", "file.text.nohf", "file.lines", "file.paragraphs", "file.pagecount",
+	"reader.repeat.fragments", "reader.repeat.markdown", "ext.repeat.text", "ext.repeat.markdown", "ext.repeat.jsonl"}
 
 func (p *Pool) OpsFor(i int) []string {
 	switch p.Kind(i) {
@@ -229,6 +230,52 @@ func runOp(op, path string, data []byte) string {
 		first := once()
 		second := once()
 		rd.ClearCache()
+		third := once()
+		if first != second || first != third {
+			a, b := sim.DiffContext(first, second)
+			if first == second {
+				a, b = sim.DiffContext(first, third)
+			}
+			return RepeatMismatch + " first: " + a + " later: " + b
+		}
+		return first
+	case "ext.repeat.text", "ext.repeat.markdown", "ext.repeat.jsonl":
+		// the same terminal operation several times on ONE configured extractor value (options
+		// and a page selection spelled out of order): every repetition gives the same text,
+		// markdown and chunks. The warning list is left out: an Extractor collects warnings
+		// over its lifetime (the second call returns the first call's warnings again), which
+		// is observed and documented, not judged under this property
+		n, err := tabula.Open(path).PageCount()
+		if err != nil {
+			return res("", nil, err)
+		}
+		e := tabula.Open(path).JoinParagraphs()
+		switch {
+		case n >= 3:
+			e = e.Pages(n, 2, 2)
+		case n == 2:
+			e = e.Pages(2, 1)
+		default:
+			e = e.PageRange(1, 1)
+		}
+		once := func() string {
+			switch op {
+			case "ext.repeat.markdown":
+				s, _, err := e.ToMarkdown()
+				return res(s, nil, err)
+			case "ext.repeat.jsonl":
+				cc, _, err := e.Chunks()
+				if err != nil || cc == nil {
+					return res("", nil, err)
+				}
+				s, err := cc.ToJSONL()
+				return res(s, nil, err)
+			}
+			s, _, err := e.Text()
+			return res(s, nil, err)
+		}
+		first := once()
+		second := once()
 		third := once()
 		if first != second || first != third {
 			a, b := sim.DiffContext(first, second)
